@@ -52,6 +52,21 @@ theorem C15_receive_loops_never_send :
     whether to refuse a new RPC (`isClosing`). -/
 theorem C15_waits_hold_no_lock : lockedWaitViolations accessTable = [] := by decide +kernel
 
+/-! ### atomicity: one critical section per function -/
+
+/-- **No function splits its work on lock-protected data over two critical
+    sections of the same lock** (with a write in one of them), and nothing is
+    written under a read lock.  The discipline above only says that each access
+    holds the lock; it cannot see a check made in one critical section and acted
+    upon in a later one (double-checked locking without the second check, a lock
+    narrowed around a slow call): the state may have changed in between.  In
+    the current sources every function that takes a mutex reads and writes the
+    data it protects inside ONE critical section, so every such function is
+    atomic with respect to that lock.  Regenerated from the sources on every
+    run (`lockSections`: one id per `Lock`/`RLock` statement of a function). -/
+theorem C15_one_critical_section_per_function :
+    splitSections lockSections = [] ∧ writesUnderRLock lockSections = [] := by decide +kernel
+
 /-! ### lock order -/
 
 /-- **The lock-order graph of the current sources has no cycle** (so no
